@@ -141,12 +141,31 @@ Definition to_net (r : rnet) : net :=
 (* ExportToMarkdown on a raw network *)
 Definition md_raw (o : oracle) (r : rnet) : result (list block) := md (to_net (walk o r)).
 
+(* ---------------------------------------------------------------- clearSpaces *)
+(* helpers.go clearSpaces: strings.ReplaceAll(strings.TrimSpace(s), " ", "_") (ASCII white space);
+   the DBC exporter writes and KEYS names in this form *)
+Definition is_ws (c : ascii) : bool :=
+  let n := nat_of_ascii c in orb (Nat.eqb n 32) (andb (Nat.leb 9 n) (Nat.leb n 13)).
+Fixpoint trim_left (s : string) : string :=
+  match s with
+  | EmptyString => EmptyString
+  | String c r => if is_ws c then trim_left r else s
+  end.
+Fixpoint srev_acc (acc s : string) : string :=
+  match s with EmptyString => acc | String c r => srev_acc (String c acc) r end.
+Definition srev (s : string) : string := srev_acc EmptyString s.
+Definition clear_spaces (s : string) : string :=
+  map_string (fun c => if Ascii.eqb c space then "_"%char else c) (srev (trim_left (srev (trim_left s)))).
+
 (* ---------------------------------------------------------------- events of the skeletons *)
 
 Inductive ev :=
 | EBus (h : N) | ENif (node : N) | EMsg (h : N) | ESig (h : N)
 | EAsg (a : rattr)                     (* saver: attribute assignment (its attribute) *)
-| EAsgN (owner : N) (name : string)    (* DBC: attribute value line (owner handle, attribute name) *)
+| EAsgN (kind : nat) (owner : N) (name : string)  (* DBC: BA_ line: 0 network 1 node 2 message 3 signal, owner, clearSpaces name *)
+| EDef (kind : nat) (name : string)   (* DBC: BA_DEF_ line *)
+| ERecvN (name : string)              (* DBC: receiver written on the signal lines of a message *)
+| EUse (e : sigenum)                  (* DBC: exportEnumSignal registers the enum (internal) *)
 | ERecv (node : N) (num : Z)
 | ERef (table : nat) (h : N)           (* 0 builders 1 nodes 2 types 3 units 4 enums 5 attributes *)
 | EVal (index : Z)
@@ -241,7 +260,8 @@ Definition save_raw (o : oracle) (r : rnet) : list ev := save_skel (walk o r).
 (* exportSignal / exportMultiplexerSignal: a multiplexed signal is exported the first time its
    name is met while walking the groups *)
 Fixpoint dbc_sig (s : rsig) : list ev :=
-  (map (fun a => EAsgN (sig_h s) (ra_name a)) (sig_attrs s) ++ [ESig (sig_h s)])
+  (map (fun a => EAsgN 3 (sig_h s) (clear_spaces (ra_name a))) (sig_attrs s) ++ [ESig (sig_h s)]
+   ++ match s with REnum _ _ _ _ _ _ en => [EUse en] | _ => [] end)
   ++ match s with
      | RMux _ _ _ _ _ _ _ _ groups =>
          (fix dg (seen : list string) (gs : list (list rsig)) : list ev :=
@@ -253,8 +273,8 @@ Fixpoint dbc_sig (s : rsig) : list ev :=
                      match l with
                      | [] => ([], seen)
                      | x :: r' =>
-                         if mem_str (rsig_name x) seen then dl seen r'
-                         else let rest := dl (rsig_name x :: seen) r' in
+                         if mem_str (clear_spaces (rsig_name x)) seen then dl seen r'
+                         else let rest := dl (clear_spaces (rsig_name x) :: seen) r' in
                               ((dbc_sig x ++ fst rest)%list, snd rest)
                      end) seen g in
                 (fst res ++ dg (snd res) r)%list
@@ -263,10 +283,14 @@ Fixpoint dbc_sig (s : rsig) : list ev :=
      end.
 
 Definition dbc_msg (m : rmsg) : list ev :=
-  (map (fun a => EAsgN (rm_h m) (ra_name a)) (rm_attrs m) ++ [EMsg (rm_h m)]
+  (map (fun a => EAsgN 2 (rm_h m) (clear_spaces (ra_name a))) (rm_attrs m) ++ [EMsg (rm_h m)]
+   ++ match rm_sigs m with
+      | [] => []
+      | _ => map (fun rc => ERecvN (clear_spaces (rr_name rc))) (rm_recv m)
+      end
    ++ flat_map dbc_sig (rm_sigs m))%list.
 Definition dbc_nif (x : rnif) : list ev :=
-  (map (fun a => EAsgN (rn_h x) (ra_name a)) (rn_attrs x) ++ [ENif (rn_h x)]
+  (map (fun a => EAsgN 1 (rn_h x) (clear_spaces (ra_name a))) (rn_attrs x) ++ [ENif (rn_h x)]
    ++ flat_map dbc_msg (rn_msgs x))%list.
 
 Local Open Scope string_scope.
@@ -274,14 +298,29 @@ Definition enum_label (e : sigenum) : string :=
   se_name e ++ join "" (map (fun v => "/" ++ dec (ev_index v) ++ ":" ++ ev_name v) (se_values e)).
 Local Close Scope string_scope.
 
-Definition bus_enums (b : rbus) : list sigenum :=
-  flat_map enums_of_sig (flat_map m_sigs (flat_map n_msgs (b_nifs (to_bus b)))).
+(* the enums registered while walking: a multiplexed signal whose clearSpaces name was already met
+   in its multiplexer is not exported, so its enum is not registered by it *)
+Definition enums_in (evs : list ev) : list sigenum :=
+  flat_map (fun e => match e with EUse x => [x] | _ => [] end) evs.
 
 (* exporter.exportBus: the walk, then the value tables in order of first use *)
+(* attribute definitions: the first attribute met for every (kind, clearSpaces name) *)
+Fixpoint dedup_defs (seen : list (nat * string)) (l : list (nat * string)) : list (nat * string) :=
+  match l with
+  | [] => []
+  | x :: r =>
+      if existsb (fun y => andb (Nat.eqb (fst x) (fst y)) (String.eqb (snd x) (snd y))) seen
+      then dedup_defs seen r else x :: dedup_defs (x :: seen) r
+  end.
+Definition asg_keys (evs : list ev) : list (nat * string) :=
+  flat_map (fun e => match e with EAsgN k _ n => [(k, n)] | _ => [] end) evs.
+
 Definition dbc_skel (b : rbus) : list ev :=
-  (map (fun a => EAsgN (rb_h b) (ra_name a)) (rb_attrs b)
-   ++ flat_map dbc_nif (rb_nifs b)
-   ++ map (fun e => ELab (enum_label e)) (dedup se_id [] (bus_enums b)))%list.
+  let body := (map (fun a => EAsgN 0 (rb_h b) (clear_spaces (ra_name a))) (rb_attrs b)
+               ++ flat_map dbc_nif (rb_nifs b))%list in
+  (body
+   ++ map (fun p => EDef (fst p) (snd p)) (dedup_defs [] (asg_keys body))
+   ++ map (fun e => ELab (enum_label e)) (dedup se_id [] (enums_in body)))%list.
 
 (* ExportBus for every bus of the network, in Buses() order *)
 Definition dbc_raw (o : oracle) (r : rnet) : list (list ev) := map dbc_skel (rt_buses (walk o r)).
@@ -311,3 +350,30 @@ Fixpoint hrun (evs : list hev) (s : rnet) : rnet :=
 
 Definition changes_only (evs : list hev) : list hev :=
   filter (fun e => match e with HMut _ => true | HRead _ => false end) evs.
+
+(* ---------------------------------------------------------------- boolean well-formedness *)
+(* evaluated by the correspondence driver on every raw network dumped from the implementation
+   (Acme.C15.Proofs.wf_netb_sound: wf_netb r = true -> wf_net r) *)
+Fixpoint nodupb {A} (eqb : A -> A -> bool) (l : list A) : bool :=
+  match l with [] => true | x :: r => andb (negb (existsb (eqb x) r)) (nodupb eqb r) end.
+
+Definition wf_attrsb (l : list rattr) : bool := nodupb String.eqb (map ra_eid l).
+Definition wf_enumb (e : sigenum) : bool := nodupb Z.eqb (map ev_index (se_values e)).
+Fixpoint wf_sigb (s : rsig) : bool :=
+  match s with
+  | RStd _ a _ _ _ _ _ => wf_attrsb a
+  | REnum _ a _ _ _ _ e => andb (wf_attrsb a) (wf_enumb e)
+  | RMux _ a _ _ _ _ _ _ g => andb (wf_attrsb a) (forallb (forallb wf_sigb) g)
+  end.
+Definition wf_msgb (m : rmsg) : bool :=
+  andb (wf_attrsb (rm_attrs m))
+    (andb (nodupb String.eqb (map rr_eid (rm_recv m)))
+       (andb (forallb (fun rc => wf_attrsb (rr_attrs rc)) (rm_recv m)) (forallb wf_sigb (rm_sigs m)))).
+Definition wf_nifb (x : rnif) : bool :=
+  andb (wf_attrsb (rn_attrs x))
+    (andb (nodupb String.eqb (map rm_eid (rn_msgs x))) (forallb wf_msgb (rn_msgs x))).
+Definition wf_busb (b : rbus) : bool :=
+  andb (wf_attrsb (rb_attrs b))
+    (andb (nodupb Z.eqb (map rn_id (rb_nifs b))) (forallb wf_nifb (rb_nifs b))).
+Definition wf_netb (r : rnet) : bool :=
+  andb (nodupb String.eqb (map rb_name (rt_buses r))) (forallb wf_busb (rt_buses r)).
